@@ -45,7 +45,10 @@ CONFIG = {
                                  "variants: all leaf pairs, node pairs and taxon subsets",
                         "thorough": "all ordered shapes with 2-6 leaves x rooting x length pattern x single-"
                                     "unifurcation variants: all leaf pairs, node pairs and taxon subsets"},
-    "assumptions": ["every leaf carries a distinct taxon; internal nodes carry none; the root edge has no length",
+    "assumptions": ["every leaf carries a distinct taxon; the root edge has no length; internal nodes (seed included) "
+                    "may carry taxa of their own (in about a third of the pdm / mrca / history / tree-route cases and one "
+                    "exhaustive variant per shape): the matrix is then still over the leaf taxa only, and no query names "
+                    "an internal node's taxon",
                     "a missing edge length counts as zero (property statement)",
                     "edge counts are those of the tree as drawn (compile_from_tree documents that a basal bifurcation "
                     "of an unrooted tree counts as two steps)",
@@ -79,10 +82,43 @@ def build(case, rooted):
     hist = case.get("hist") or shapes.plain_history(n)
     ns, taxa, bits = shapes.build_namespace(hist)
     tree = shapes.build_tree(spec, ns, taxa, is_rooted=rooted)
+    add_inner_taxa(ns, tree, case.get("inner_taxa"))
     pre, problems = snapshot(tree)
     if problems:
         raise runner.HarnessError("built tree not well formed: %r" % problems)
     return n, ns, taxa, bits, tree, pre
+
+
+INNER_TAXA = st.one_of(st.just([]), st.just([]), st.lists(st.integers(0, 12), min_size=1, max_size=3))
+
+
+def add_inner_taxa(ns, tree, picks):
+    """Gives internal nodes (pick 0 = the seed) taxa 'I<j>' of their own, added to the namespace after the leaf taxa.
+
+    The statements checked are about leaf taxa; clean behaviour: compile_from_tree, encode_bipartitions and Tree.mrca
+    look at the taxa of leaves only, so such trees must give the same answers for every pair / set of leaf taxa."""
+    import dendropy
+    if not picks:
+        return {}
+    rt, _ = snapshot(tree)
+    internals = rt.internals()
+    out = {}
+    for j, k in enumerate(picks):
+        nd = rt.obj[internals[k % len(internals)]]
+        if nd.taxon is None:
+            t = dendropy.Taxon(label="I%d" % j)
+            ns.add_taxon(t)
+            nd.taxon = t
+            out[t.label] = t
+    return out
+
+
+def inner_taxa_classes(ctx, prefix, rt):
+    inner = [i for i in rt.internals() if rt.taxon[i] is not None]
+    if inner:
+        ctx.cls(prefix + ":taxon_on_internal_node")
+    if rt.taxon[rt.root] is not None and rt.children[rt.root]:
+        ctx.cls(prefix + ":taxon_on_seed")
 
 
 def idx_of(label):
@@ -152,7 +188,8 @@ def pdm_cases(draw, max_leaves):
     return {"spec": sl["spec"], "lenpat": sl["lenpat"], "rooted": draw(st.sampled_from([True, False, None])),
             "hist": hist, "store_edges": draw(st.booleans()), "subsets": subsets, "tm_pairs": [list(p) for p in pairs],
             "via_class": draw(st.booleans()), "csv": draw(st.sampled_from([None, None, ",", "\t", ";"])),
-            "csv_names": draw(st.sampled_from([[True, True], [True, True], [True, False], [False, True]]))}
+            "csv_names": draw(st.sampled_from([[True, True], [True, True], [True, False], [False, True]])),
+            "inner_taxa": draw(INNER_TAXA)}
 
 
 def check_pdm(ctx, case):
@@ -379,6 +416,7 @@ def _check_pdm_rest(ctx, case, ndm_node_limit, count, n, ns, tree, pre, pdm, lea
         ctx.cls("pdm:polytomy")
     if any(len(pre.children[i]) == 1 for i in nodes):
         ctx.cls("pdm:unifurcation")
+    inner_taxa_classes(ctx, "pdm", pre)
     ctx.sample("pdm", {"newick": shapes.spec_to_newick(case["spec"]), "rooted": case["rooted"], "lenpat": case["lenpat"]})
 
 
@@ -412,7 +450,8 @@ def history_cases(draw, max_leaves):
         for nd in shapes.spec_nodes(sl["spec"]):
             if nd["t"] is not None:
                 nd["t"] = members[nd["t"]]
-        trees.append({"spec": sl["spec"], "lenpat": sl["lenpat"], "rooted": draw(st.sampled_from([True, True, False, None]))})
+        trees.append({"spec": sl["spec"], "lenpat": sl["lenpat"], "rooted": draw(st.sampled_from([True, True, False, None])),
+                      "inner_taxa": draw(INNER_TAXA)})
     ops = draw(st.lists(st.fixed_dictionaries({"op": st.sampled_from(HISTORY_OPS), "x": st.integers(0, 100), "y": st.integers(0, 100),
                                                "k": st.integers(0, 16)}), min_size=2, max_size=6))
     return {"total": total, "kind": kind, "trees": trees, "ops": ops, "store_edges": draw(st.booleans()),
@@ -430,6 +469,14 @@ def _check_history(ctx, case):
     from dendropy.calculate import phylogeneticdistance, treemeasure
     ns, taxa, bits = shapes.build_namespace(shapes.plain_history(case["total"]))
     trees = [shapes.build_tree(t["spec"], ns, taxa, is_rooted=t["rooted"]) for t in case["trees"]]
+    by_label = dict((t.label, t) for t in taxa.values())
+    for k, t in enumerate(case["trees"]):
+        # the two trees get distinct internal taxa ('I<j>' / 'J<j>' would clash otherwise: one namespace)
+        extra = add_inner_taxa(ns, trees[k], t.get("inner_taxa"))
+        for lab_, tx_ in extra.items():
+            tx_.label = "%s_tree%d" % (lab_, k)
+            by_label[tx_.label] = tx_
+        inner_taxa_classes(ctx, "history", snapshot(trees[k])[0])
     cur = 0
     log = []
 
@@ -440,7 +487,7 @@ def _check_history(ctx, case):
         return rt
 
     def tx_of(rt):
-        return dict((i, taxa[idx_of(rt.taxon[i])]) for i in rt.leaves())
+        return dict((i, by_label[rt.taxon[i]]) for i in rt.leaves())
 
     def usable(rt):
         # every leaf carries a taxon (an emptied internal node or a left-behind seed would be a taxon-less leaf)
@@ -572,7 +619,7 @@ def mrca_cases(draw, max_leaves):
             "su": draw(st.booleans()), "cb": draw(st.booleans()),
             "queries": draw(st.lists(query(n), min_size=1, max_size=5)),
             "edits": draw(st.lists(st.tuples(st.integers(0, 100), st.integers(0, 100)), min_size=draw(st.sampled_from([0, 1, 1, 2])), max_size=3)),
-            "stale_queries": draw(st.lists(query(n), min_size=1, max_size=4))}
+            "stale_queries": draw(st.lists(query(n), min_size=1, max_size=4)), "inner_taxa": draw(INNER_TAXA)}
 
 
 def run_query(ctx, tree, ns, taxa, bits, q, rt_before, stale, tag):
@@ -680,6 +727,7 @@ def _check_mrca(ctx, case):
         cur = run_query(ctx, tree, ns, taxa, bits, q, cur, first, tag2)
         first = False
     ctx.cls("mrca:moves=%d" % moved)
+    inner_taxa_classes(ctx, "mrca", pre)
     ctx.cls("mrca:%s" % ("encoded_first" if case["encode_first"] else "never_encoded"))
     if shape_is_nontrivial(pre):
         ctx.nontrivial(["mrca", case])
@@ -698,7 +746,8 @@ DELIMS = [",", ",", "\t", ";"]
 def route(draw, n):
     return {"route": draw(st.sampled_from(ROUTES)), "delim": draw(st.sampled_from(DELIMS)),
             "ns_given": draw(st.booleans()), "order": list(draw(st.permutations(list(range(n))))),
-            "lower_garbage": draw(st.booleans()), "hist": draw(shapes.namespace_history(n, max_extra=2))}
+            "lower_garbage": draw(st.booleans()), "hist": draw(shapes.namespace_history(n, max_extra=2)),
+            "inner_taxa": draw(INNER_TAXA)}
 
 
 def own_csv_text(labels, dist, delim, lower_garbage):
@@ -734,6 +783,8 @@ def matrix_by_route(ctx, r, spec, dist, labels, weighted=True):
     ns, taxa, bits = shapes.build_namespace(r["hist"])
     if kind in ("tree", "tree_csv"):
         tree = shapes.build_tree(spec, ns, taxa, is_rooted=None)
+        if add_inner_taxa(ns, tree, r.get("inner_taxa")):
+            ctx.cls("route:tree_with_taxon_on_internal_node")
         pdm = ctx.call("C14.route.from_tree", tree.phylogenetic_distance_matrix)
         if kind == "tree":
             return pdm, weighted
@@ -1069,6 +1120,8 @@ def exhaustive_items(maxn):
                 for lens in ("inc", "missing"):
                     for unif in [None] + list(range(nn)):
                         items.append({"n": n, "idx": idx, "rooted": rooted, "lens": lens, "unif": unif})
+                    # every internal node (seed included) carries a taxon of its own
+                    items.append({"n": n, "idx": idx, "rooted": rooted, "lens": lens, "unif": None, "inner": True})
     return items
 
 
@@ -1099,7 +1152,8 @@ def _check_exh(ctx, item):
     spec = exh_spec(item)
     n = item["n"]
     case = {"spec": spec, "lenpat": item["lens"], "rooted": item["rooted"], "hist": None, "store_edges": item["unif"] is None,
-            "subsets": [], "tm_pairs": [[0, n - 1]], "via_class": False}
+            "subsets": [], "tm_pairs": [[0, n - 1]], "via_class": False,
+            "inner_taxa": list(range(len(shapes.spec_nodes(spec)))) if item.get("inner") else []}
     _check_pdm(ctx, case, count=False)
     # all non-empty subsets x three query forms; current encoding first, then a never-encoded tree with refresh
     for fresh in (False, True):
